@@ -8,6 +8,7 @@ import (
 	"io"
 	"net/http"
 	"strconv"
+	"strings"
 	"sync"
 	"time"
 
@@ -334,6 +335,11 @@ func nameOf(point string, ctx []interface{}) (name string, owner interface{}, at
 		owner = ctx[0]
 	}
 	name = point
+	if strings.HasPrefix(point, "auto.W:") {
+		attr = lkW
+	} else if strings.HasPrefix(point, "auto.R:") {
+		attr = lkR
+	}
 	switch point {
 	case "ScheduleAsync", "ReplaceDefinitions", "Shutdown.begin", "Shutdown.force":
 		attr = lkW
